@@ -14,6 +14,7 @@ script over its own old output is idempotent (the contract C01 assumes).
 """
 
 import copy
+import hashlib
 import os
 
 from . import common
@@ -276,6 +277,48 @@ def gen_project(rng, nmin=3, nmax=7, features=None):
                     ur["depends"].insert(rng.randint(0, len(ur["depends"])), {"name": t, "use": ["result", "deps"]})
     return model
 
+def add_url_sources(rng, model, p=0.6):
+    """Turn some source-less / script recipes into url-SCM-only checkouts (opt-in: C05)."""
+    n = 0
+    for name in model["order"]:
+        r = model["recipes"][name]
+        if r.get("label") or not r["build"] or r["src"] == "import" or r.get("checkoutTools"):
+            continue
+        if any(x.get("label") == name for x in model["recipes"].values()):
+            continue
+        if rng.random() < p:
+            r["src"] = "url"
+            r["checkoutVars"] = []
+            r["url"] = {"rev": 0, "content": "upstream-%s-%x\n" % (name, rng.getrandbits(32)),
+                        "dir": rng.choice(["dl", "dl", "."]), "fileName": rng.choice([None, "data.bin"])}
+            n += 1
+    if n:
+        model["features"] = sorted(set(model["features"]) | {"urlscm"})
+    return n
+
+def closure(model, start="root"):
+    """Recipes reachable from `start` over `depends` (conditions ignored)."""
+    seen, todo = set(), [start]
+    while todo:
+        n = todo.pop()
+        if n in seen or n not in model["recipes"]:
+            continue
+        seen.add(n)
+        todo.extend(d["name"] for d in model["recipes"][n]["depends"])
+    return seen
+
+def write_upstream(model):
+    """Publish the files the url SCMs of this project state refer to (older revisions stay)."""
+    up = model.get("upstream_root")
+    if not up:
+        return
+    os.makedirs(up, exist_ok=True)
+    for name, r in model["recipes"].items():
+        if r["src"] == "url":
+            fn = os.path.join(up, "%s-r%d.dat" % (r.get("label", name), r["url"]["rev"]))
+            if not os.path.exists(fn):
+                common.write_file(fn, r["url"]["content"])
+
 def _leaf(rng):
     return {"salt": {"checkout": "%x" % rng.getrandbits(24), "build": "%x" % rng.getrandbits(24),
                      "package": "%x" % rng.getrandbits(24)},
@@ -348,6 +391,14 @@ def _yaml_recipe(name, r, model):
         d["depends"] = deps
     if r["src"] == "import":
         d["checkoutSCM"] = {"scm": "import", "url": "src/%s" % name, "prune": True}
+    elif r["src"] == "url":
+        # deterministic checkout that consists of an SCM only (no script): a file fetched from an
+        # "upstream" directory outside the project, pinned by its digest
+        u = r["url"]
+        d["checkoutSCM"] = {"scm": "url", "url": "%s/%s-r%d.dat" % (model.get("upstream_root", "/nonexistent-upstream"), name, u["rev"]),
+                            "digestSHA1": hashlib.sha1(u["content"].encode()).hexdigest(), "dir": u.get("dir", "dl")}
+        if u.get("fileName"):
+            d["checkoutSCM"]["fileName"] = u["fileName"]
     elif r["src"] == "script":
         d["checkoutDeterministic"] = True
         d["checkoutScript"] = _checkout_script(name, r["salt"]["checkout"], r["buildVarsWeak"], r.get("checkoutTools", ()))
@@ -545,6 +596,8 @@ def gen_edit(rng, model, history, kinds=None, value_pool=None):
             return {"kind": "tool_libs", "recipe": r_name, "tool": t, "libs": rng.choice([[], ["."], ["lib"]])}
         if kind == "class_salt" and model["classes"]:
             return {"kind": "class_salt", "cls": rng.choice(sorted(model["classes"])), "value": "%x" % rng.getrandbits(24)}
+        if kind == "url_change" and r["src"] == "url" and r_name in closure(model):
+            return {"kind": "url_change", "recipe": r_name, "content": "upstream-%s-%x\n" % (r_name, rng.getrandbits(32))}
         if kind == "revert" and history:
             return {"kind": "revert", "to": rng.randrange(len(history))}
     return None
@@ -622,6 +675,11 @@ def apply_edit(model, edit, history):
             return m
         if k == "salt":
             r["salt"][edit["step"]] = edit["value"]
+        elif k == "url_change":
+            if r["src"] == "url":
+                # a new upstream release: other URL, other digest (revision numbers never recur)
+                r["url"]["rev"] = 1 + max([x["url"]["rev"] for h in list(history) + [m] for x in h["recipes"].values() if x.get("url")])
+                r["url"]["content"] = edit["content"]
         elif k == "var_value":
             if edit["var"] in r["environment"]:
                 r["environment"][edit["var"]] = edit["value"]
